@@ -205,6 +205,24 @@ func sortOfTypeName(n string) (string, types.Type, int) {
 	return "Int", tInt, 1
 }
 
+// specSort maps a type name used in ghost declarations to an SMT sort and arity.
+func (u *Unit) specSort(env *SpecEnv, n string) (string, types.Type, int) {
+	switch n {
+	case "int", "Int", "bool", "Bool", "string", "Str", "iface", "slice", "ref":
+		return sortOfTypeName(n)
+	}
+	if te, err := ParseSpec(n); err == nil {
+		if t, err := u.resolveType(env, te); err == nil {
+			ls := u.eng.leavesOf(t)
+			if len(ls) == 1 {
+				return ls[0].Sort, t, 1
+			}
+			return "Int", t, len(ls)
+		}
+	}
+	return sortOfTypeName(n)
+}
+
 func (u *Unit) resolveType(env *SpecEnv, e *Spec) (types.Type, error) {
 	switch e.Kind {
 	case SDeref:
@@ -228,7 +246,16 @@ func (u *Unit) resolveType(env *SpecEnv, e *Spec) (types.Type, error) {
 		}
 	case SSel:
 		if e.A.Kind == SIdent {
+			var cands []*types.Package
 			if p := u.findPkg(env, e.A.Name); p != nil {
+				cands = append(cands, p)
+			}
+			for _, sp := range u.eng.prog.AllPackages() {
+				if sp.Pkg.Name() == e.A.Name {
+					cands = append(cands, sp.Pkg)
+				}
+			}
+			for _, p := range cands {
 				if o := p.Scope().Lookup(e.Name); o != nil {
 					if tn, ok := o.(*types.TypeName); ok {
 						return tn.Type(), nil
@@ -705,6 +732,12 @@ func (u *Unit) evalCall(st *State, env *SpecEnv, e *Spec) (Val, error) {
 			}
 		}
 		return Val{}, fmt.Errorf("len of unsupported type %s", as[0].T)
+	case "expected":
+		as, err := args()
+		if err != nil {
+			return Val{}, err
+		}
+		return intVal(fmt.Sprintf("(select %s %s)", u.heapGet(st, "C_expect", "(Array Int Int)"), as[0].Terms[0])), nil
 	case "sent", "recvd", "chancap":
 		as, err := args()
 		if err != nil {
@@ -712,6 +745,81 @@ func (u *Unit) evalCall(st *State, env *SpecEnv, e *Spec) (Val, error) {
 		}
 		comp := map[string]string{"sent": "C_sent", "recvd": "C_recvd", "chancap": "C_cap"}[e.Name]
 		return intVal(fmt.Sprintf("(select %s %s)", u.heapGet(st, comp, "(Array Int Int)"), as[0].Terms[0])), nil
+	case "now":
+		// now(x): the current value of the local variable (or parameter cell) x
+		if len(e.Args) != 1 || e.Args[0].Kind != SIdent || env.fr == nil {
+			return Val{}, fmt.Errorf("now(x) needs a local variable")
+		}
+		ne := *env
+		ne.vars = map[string]Val{}
+		for k, v := range env.vars {
+			if k != e.Args[0].Name {
+				ne.vars[k] = v
+			}
+		}
+		ne.useLocals = true
+		return u.eval(st, &ne, e.Args[0])
+	case "deref":
+		as, err := args()
+		if err != nil {
+			return Val{}, err
+		}
+		pv, err := u.ifacePtr(as[0])
+		if err != nil {
+			return Val{}, err
+		}
+		return u.specLoad(st, pv)
+	case "qmarks":
+		as, err := args()
+		if err != nil {
+			return Val{}, err
+		}
+		return intVal(fmt.Sprintf("(qmarks %s)", as[0].Terms[0])), nil
+	case "litcontains", "litqbefore", "litindex", "litcount":
+		// evaluated on string LITERALS at VC-generation time
+		as, err := args()
+		if err != nil {
+			return Val{}, err
+		}
+		lit := func(v Val) (string, bool) {
+			if len(v.Terms) != 1 {
+				return "", false
+			}
+			if v.Terms[0] == "str_empty" {
+				return "", true
+			}
+			for k, n := range u.eng.strLits {
+				if n == v.Terms[0] {
+					return k, true
+				}
+			}
+			return "", false
+		}
+		a, ok1 := lit(as[0])
+		b, ok2 := lit(as[1])
+		if !ok1 || !ok2 {
+			if e.Name == "litcontains" {
+				return boolVal("false"), nil
+			}
+			return intVal("(- 1)"), nil
+		}
+		switch e.Name {
+		case "litcontains":
+			if strings.Contains(a, b) {
+				return boolVal("true"), nil
+			}
+			return boolVal("false"), nil
+		case "litqbefore":
+			i := strings.Index(a, b)
+			if i < 0 {
+				return intVal("(- 1)"), nil
+			}
+			return intVal(sInt(int64(strings.Count(a[:i], "?")))), nil
+		case "litindex":
+			return intVal(sInt(int64(strings.Index(a, b)))), nil
+		default:
+			return intVal(sInt(int64(strings.Count(a, b)))), nil
+		}
 	case "closureof":
 		// closureof(f, Name): Go-side knowledge that f is (a closure of) the named function
 		if len(e.Args) != 2 {
@@ -848,20 +956,20 @@ func (u *Unit) evalCall(st *State, env *SpecEnv, e *Spec) (Val, error) {
 			return Val{}, fmt.Errorf("spec function %s: arity", e.Name)
 		}
 		ne := &SpecEnv{vars: map[string]Val{}, old: env.old, fn: env.fn, pkg: env.pkg, depth: env.depth + 1}
+		if sp := u.eng.pkgByPath(sf.Pkg); sp != nil {
+			ne.pkg = sp
+		}
 		for i, p := range sf.Params {
 			ne.vars[p.Name] = as[i]
 		}
 		return u.eval(st, ne, sf.Body)
 	}
-	if gs, ok := u.eng.cs.GhostFields[e.Name]; ok && len(e.Args) == 1 {
+	if gn, ok := u.eng.cs.GhostFields[e.Name]; ok && len(e.Args) == 1 {
 		a, err := u.eval(st, env, e.Args[0])
 		if err != nil {
 			return Val{}, err
 		}
-		t := types.Type(tInt)
-		if gs == "Bool" {
-			t = tBool
-		}
+		gs, t, _ := u.specSort(env, gn)
 		return Val{T: t, Terms: []Term{fmt.Sprintf("(select %s %s)", u.heapGet(st, "GF_"+e.Name, "(Array Int "+gs+")"), objRef(a))}}, nil
 	}
 	// ghost (uninterpreted) function
@@ -876,7 +984,7 @@ func (u *Unit) evalCall(st *State, env *SpecEnv, e *Spec) (Val, error) {
 		var ts []Term
 		var sorts []string
 		for i, p := range gf.Params {
-			s, _, n := sortOfTypeName(p)
+			s, _, n := u.specSort(env, p)
 			if len(as[i].Terms) < n {
 				return Val{}, fmt.Errorf("ghost function %s: argument %d has the wrong shape", e.Name, i)
 			}
@@ -885,7 +993,7 @@ func (u *Unit) evalCall(st *State, env *SpecEnv, e *Spec) (Val, error) {
 				sorts = append(sorts, s)
 			}
 		}
-		rs, rt, _ := sortOfTypeName(gf.Result)
+		rs, rt, _ := u.specSort(env, gf.Result)
 		u.eng.gdecl("ghost_"+gf.Name, fmt.Sprintf("(declare-fun g_%s (%s) %s)", gf.Name, strings.Join(sorts, " "), rs))
 		return Val{T: rt, Terms: []Term{sApp("g_"+gf.Name, ts...)}}, nil
 	}
@@ -956,6 +1064,9 @@ func (u *Unit) harvest(st *State, env *SpecEnv, e *Spec, ante Term, depth int) {
 		}
 		if sf := u.lookupSpec(env, e.Name); sf != nil && len(sf.Params) == len(e.Args) {
 			ne := &SpecEnv{vars: map[string]Val{}, old: env.old, fn: env.fn, pkg: env.pkg, depth: env.depth + 1}
+			if sp := u.eng.pkgByPath(sf.Pkg); sp != nil {
+				ne.pkg = sp
+			}
 			for i, p := range sf.Params {
 				v, err := u.eval(st, env, e.Args[i])
 				if err != nil {
